@@ -30,6 +30,7 @@ def run(chk, tier):
     chk.floor("R-CHK.step", chk.rule_counts.get("R-CHK.step", 0), 2)
     chk.floor("BASE.ctor", chk.rule_counts.get("BASE.ctor", 0), 2)
     chk.floor("R-CHK.ref", chk.rule_counts.get("R-CHK.ref", 0), 8)
+    chk.floor("R-CHK.derive", chk.rule_counts.get("R-CHK.derive", 0), 40)
     chk.extra["functions_analysed"] = tot[0]
     chk.extra["functions_skipped_budget_or_visit"] = tot[2]
     chk.assumptions += ["dimension / length encodings are unsigned (SBE requirement; the validator rejects non-integer types only and leaves signed ones to the schema author)",
@@ -46,7 +47,8 @@ def run(chk, tier):
                      "operation sequences follow operation by operation. R-CHK.step: an operation of a class carrying `end` "
                      "that moves its own ptr by an amount read from the buffer (forward iterator step) must have asserted "
                      "facts implying ptr' <= end, since later checks compute end - ptr unsigned. R-CHK.ref: an lvalue into the buffer that an operation returns (operator[], front, "
-                     "back) is covered like an access. Formation of out-of-range "
+                     "back) is covered like an access. R-CHK.derive: every view / iterator an operation hands out carries the end "
+                     "pointer of the view it was derived from (only make_view / make_const_view originate a bound). Formation of out-of-range "
                      "pointers by caller-supplied amounts (random access iterator arithmetic) is not covered."),
         rule_text=("instances = (function instantiation shape, path, access event); distinct by (function template, access "
                    "kind, address form); all are non-trivial (each needs a dominance + affine implication test)"))
